@@ -44,7 +44,19 @@ impl MnCase {
     }
 }
 
+/// very heavy rows: two or three rows, more than 2^17 columns of weight one under the uniform
+/// policy, so that row weights pass 2^16
+fn mn_heavy_rows() -> BoxedStrategy<MnCase> {
+    (2usize..=3, 131_100usize..=140_000, 0usize..=2, any::<u64>())
+        .prop_map(|(nrows, ncols, slack, seed)| MnCase { nrows, ncols, wr: ncols.div_ceil(nrows) + slack, wc: 1, backtrack_cols: 0, backtrack_trials: 0, min_girth: None, girth_trials: 0, uniform: true, seed, search_start: seed % 1000, search_tries: 1, threads: 1 })
+        .boxed()
+}
+
 fn mn_strategy(t: Tier) -> BoxedStrategy<MnCase> {
+    prop_oneof![400 => mn_strategy_small(t), 1 => mn_heavy_rows()].boxed()
+}
+
+fn mn_strategy_small(t: Tier) -> BoxedStrategy<MnCase> {
     let (maxr, maxc) = t.pick((12usize, 24usize), (20, 48));
     (
         // slack 3 stands for -1: a maximum row weight below what the column weights need (must fail, or at least never exceed wr)
@@ -243,7 +255,7 @@ pub fn property() -> Property {
         subs: vec![
             Box::new(Sub {
                 name: "mackay-neal",
-                rule: "configurations rows 1..=12, cols 1..=24 (thorough 20 x 48; a single row / column in 5 % of the cases each), wc 0..=min(4, rows) (0 in 3 %), wr = ceil(cols*wc/rows) + {0,1,2} (and occasionally one less than feasible), both fill policies, min girth {none, 4, 6, 8, any of 1..=11 incl. odd values} with 0..=30 girth trials, backtracking 0..=3 columns x 0..=5 trials, any u64 seed; on success: size, every column weight = wc, every row weight <= wr, own girth >= min girth, uniform policy without girth constraint: row weights differ by <= 1; same (config, seed) twice (second run on another thread) identical; seeds s..s+3 validated too and, when all succeed in a roomy configuration, not all identical; search(start, tries<=64) under rayon pools of 1/2/4/16 threads (start also near u64::MAX - tries): Some((s,h)) has start <= s < start+tries and h == run(s), None only if the sequential oracle finds every seed failing. Non-trivial = success where a neighbouring seed fails with backtracking/girth retries configured, or a search range with mixed outcomes",
+                rule: "configurations rows 1..=12, cols 1..=24 (thorough 20 x 48; a single row / column in 5 % of the cases each), wc 0..=min(4, rows) (0 in 3 %), wr = ceil(cols*wc/rows) + {0,1,2} (and occasionally one less than feasible), both fill policies (one case in 400: 2-3 rows and more than 131 000 columns of weight one under the uniform policy, row weights beyond 2^16), min girth {none, 4, 6, 8, any of 1..=11 incl. odd values} with 0..=30 girth trials, backtracking 0..=3 columns x 0..=5 trials, any u64 seed; on success: size, every column weight = wc, every row weight <= wr, own girth >= min girth, uniform policy without girth constraint: row weights differ by <= 1; same (config, seed) twice (second run on another thread) identical; seeds s..s+3 validated too and, when all succeed in a roomy configuration, not all identical; search(start, tries<=64) under rayon pools of 1/2/4/16 threads (start also near u64::MAX - tries): Some((s,h)) has start <= s < start+tries and h == run(s), None only if the sequential oracle finds every seed failing. Non-trivial = success where a neighbouring seed fails with backtracking/girth retries configured, or a search range with mixed outcomes",
                 cases: |t| t.pick(12_000, 400_000),
                 strategy: mn_strategy,
                 check: check_mn,
